@@ -30,19 +30,19 @@ class _Ctx:
 
     def has_var(self, e):
         k = e.get_id()
-        r = self.hv.get(k)
-        if r is None:
+        hit = self.hv.get(k)
+        if hit is None:
             r = z3.is_var(e) or any(self.has_var(c) for c in e.children()) or (z3.is_quantifier(e) and self.has_var(e.body()))
-            self.hv[k] = r
-        return r
+            self.hv[k] = hit = (r, e)       # keep e alive: ids must not be recycled while memoised
+        return hit[0]
 
     def has_quant(self, e):
         k = e.get_id()
-        r = self.hq.get(k)
-        if r is None:
+        hit = self.hq.get(k)
+        if hit is None:
             r = z3.is_quantifier(e) or any(self.has_quant(c) for c in e.children())
-            self.hq[k] = r
-        return r
+            self.hq[k] = hit = (r, e)
+        return hit[0]
 
 
 def _roots(a):
@@ -72,6 +72,23 @@ def _simple(e, depth=0):
         return True
     if k == z3.Z3_OP_DT_CONSTRUCTOR or k in (z3.Z3_OP_ADD, z3.Z3_OP_SUB, z3.Z3_OP_MUL, z3.Z3_OP_UMINUS):
         return depth < 3 and all(_simple(c, depth + 1) for c in e.children())
+    if k == z3.Z3_OP_SELECT and depth == 0:
+        # an element read at a simple index (skolem constant / numeral / loop counter): list elements are candidates,
+        # reads at skolem-function indices are not (no feedback)
+        return _simple(e.arg(1), 1) and _flat_array(e.arg(0))
+    return False
+
+
+def _flat_array(a, depth=0):
+    if not z3.is_app(a) or depth > 3:
+        return False
+    k = a.decl().kind()
+    if a.num_args() == 0:
+        return True
+    if k == z3.Z3_OP_STORE:
+        return _flat_array(a.arg(0), depth + 1)
+    if k == z3.Z3_OP_UNINTERPRETED:
+        return all(_simple(c, 1) for c in a.children())
     return False
 
 
@@ -81,41 +98,64 @@ class Instantiator:
         fs = nnf(formulas)
         self.ground = [f for f in fs if not self.ctx.has_quant(f)]
         self.quant = [f for f in fs if self.ctx.has_quant(f)]
-        self.reads = {}          # root array id -> {term id: term}
+        self.reads = {}          # root array class -> {term id: term}
+        self.parent, self.keep = {}, {}
         self.sort_terms = {}     # sort name -> {id: term} for non-Int bound sorts
-        self.visited = set()
+        self.visited = {}
         self.instances = {}      # key -> formula
         self.n_inst = 0
+
+    # ---- arrays known equal (a == b facts) share their read sets
+    def find(self, r):
+        k = r.get_id()
+        self.keep.setdefault(k, r)
+        while self.parent.get(k, k) != k:
+            k = self.parent[k]
+        return k
+
+    def union(self, a, b):
+        ra, rb = self.find(a), self.find(b)
+        if ra != rb:
+            self.parent[ra] = rb
+            if ra in self.reads:
+                self.reads.setdefault(rb, {}).update(self.reads.pop(ra))
 
     # ---- ground read collection
     def scan(self, e):
         k = e.get_id()
         if k in self.visited:
             return
-        self.visited.add(k)
+        self.visited[k] = e
         if z3.is_quantifier(e):
             self.scan(e.body())
             return
         if not z3.is_app(e):
             return
         d = e.decl().kind()
+        if d == z3.Z3_OP_EQ and e.arg(0).sort().kind() == z3.Z3_ARRAY_SORT and not self.ctx.has_var(e):
+            ra, _ = _roots(e.arg(0))
+            rb, _ = _roots(e.arg(1))
+            for x in ra:
+                for y in rb:
+                    self.union(x, y)
         if d == z3.Z3_OP_SELECT:
             a, t = e.arg(0), e.arg(1)
             if not self.ctx.has_var(t):
                 roots, idx = _roots(a)
                 for r in roots:
                     if not self.ctx.has_var(r):
-                        self.reads.setdefault(r.get_id(), {}).setdefault(t.get_id(), t)
+                        key = self.find(r)
+                        self.reads.setdefault(key, {}).setdefault(t.get_id(), t)
                         for j in idx:
                             if not self.ctx.has_var(j):
-                                self.reads[r.get_id()].setdefault(j.get_id(), j)
+                                self.reads[key].setdefault(j.get_id(), j)
         elif d == z3.Z3_OP_STORE:
             roots, idx = _roots(e)
             for r in roots:
                 if not self.ctx.has_var(r):
                     for j in idx:
                         if not self.ctx.has_var(j):
-                            self.reads.setdefault(r.get_id(), {}).setdefault(j.get_id(), j)
+                            self.reads.setdefault(self.find(r), {}).setdefault(j.get_id(), j)
         if e.sort().kind() not in (z3.Z3_BOOL_SORT, z3.Z3_INT_SORT, z3.Z3_REAL_SORT, z3.Z3_ARRAY_SORT) and not self.ctx.has_var(e) and _simple(e):
             self.sort_terms.setdefault(e.sort().name(), {}).setdefault(k, e)
         for c in e.children():
@@ -142,7 +182,7 @@ class Instantiator:
                         roots, idx = _roots(e.arg(0))
                         for r in roots:
                             if not self.ctx.has_var(r):
-                                arrays[vi][r.get_id()] = r
+                                arrays[vi][self.find(r)] = r
                         for j in idx:
                             if not self.ctx.has_var(j):
                                 extra[vi][j.get_id()] = j
